@@ -496,7 +496,9 @@ pub const TEMPLATES: &[Template] = &[
     langs: JS,
     severity: "warning",
     message: "foo($A, $B) with $X",
-    rule: "  pattern: foo($A, $B)\n",
+    // `inside` always holds and binds a third variable: more captures than constraints, the
+    // shape under which a matcher might take another road through the constraints
+    rule: "  pattern: foo($A, $B)\n  inside:\n    pattern: $STMT\n",
     constraints: &[
       ("A", "    any:\n    - pattern: $X\n    - kind: number\n"),
       ("B", "    pattern: $X\n"),
